@@ -13,8 +13,15 @@ in notes/C12.md (harness `c12.rs: view_of`).
 
 Not modelled: `cur.metadata` (copied from the record, not part of the property),
 `registration` / initial `typecode` (functions of the address and the aircraft database
-only; the driver runs with an empty database), `hist` (`store_history`, not part of the table
-entry), `count += 1` overflow (2^64 records).
+only; the driver runs with an empty database — with a database the entry starts with the
+database's `typecode`, so type-code provenance needs the empty-database premise), `hist` (not
+part of the table entry), `count += 1` overflow (2^64 records).
+
+THIS FILE IS ONE OF THREE WRITERS of the shared table.  `store_history` (its own
+`entry(k).or_insert(new)`) and the expiry task of `main` (removal of every entry with
+`now > lastseen + 60·N` under `--history-expire N`) are modelled in Model/SnapshotWriters.lean
+(`runLive`); `run` below is the table of `update_snapshot` histories — the real table as long as
+no removal intervenes (Props/C12 `expire_off_reduces`, `entry_between_expiries`).
 
 Core Lean only.
 -/
